@@ -81,6 +81,10 @@ def _histories(tier):
   hs.append(dict(steps=[1, 2, 3, 4, 5, 6, 7, 1], keep=1, n=3, overwrite=True))
   hs.append(dict(steps=[0.5, 1.5, 10.0, 9e1], keep=2, n=None, overwrite=False))
   hs.append(dict(steps=[-2, -1, 0, 1], keep=2, n=None, overwrite=False))
+  # float steps whose str() carries a SIGNED exponent (below 1e-4, from 1e16 on)
+  hs.append(dict(steps=[-2.5, 1e-05, 0.0003, 0.02, 7, 2e+16], keep=2, n=None, overwrite=False))
+  hs.append(dict(steps=[1e-07, 5e-06, 1.0, 3e+17, 4e+17], keep=1, n=None, overwrite=False))
+  hs.append(dict(steps=[1e-05, 0.0003, 5e-05], keep=3, n=None, overwrite=False))
   # prefixes that contain digits, '-' and '.' themselves: the step is the number AFTER the prefix
   for prefix in ('gpt2_', 'resnet50_v1.5_', 'run-3_'):
     hs.append(dict(steps=[0, 5, 10, 15, 20, 25], keep=1, n=10, overwrite=False, prefix=prefix))
